@@ -154,11 +154,16 @@ class InterestTreeNode:
         self.pending_list.append(
             PendingIntEntry(future, deadline, param.can_be_prefix, param.must_be_fresh, validator, implicit_sha256))
 
-    def nack_interest(self, nack_reason: int) -> bool:
+    def nack_interest(self, nack_reason: int, implicit_sha256: enc.BinaryStr = b'') -> bool:
+        # A Nack names one Interest name: entries filed here under another implicit digest (or none) are not concerned
+        remaining = []
         for entry in self.pending_list:
-            if not entry.future.done():
+            if bytes(entry.implicit_sha256) != bytes(implicit_sha256):
+                remaining.append(entry)
+            elif not entry.future.done():
                 entry.future.set_exception(types.InterestNack(nack_reason))
-        return True
+        self.pending_list = remaining
+        return not remaining
 
     def satisfy(self, data: types.DataTuple, is_prefix: bool) -> bool:
         unsatisfied_entries = []
@@ -597,12 +602,17 @@ class NDNApp:
             del self._pit[prefix]
 
     def _on_nack(self, name: enc.FormalName, nack_reason: int):
+        # Interests whose name ends with an implicit digest are filed under the name without it
+        implicit_sha256 = b''
+        if name and enc.Component.get_type(name[-1]) == enc.Component.TYPE_IMPLICIT_SHA256:
+            implicit_sha256 = enc.Component.get_value(name[-1])
+            name = name[:-1]
         try:
             node = self._pit[name]
         except KeyError:
             node = None
         if node:
-            if node.nack_interest(nack_reason):
+            if node.nack_interest(nack_reason, implicit_sha256):
                 del self._pit[name]
 
     def express(self, name: enc.NonStrictName, validator: Validator,
